@@ -74,6 +74,44 @@ CHECKS = {
             "-D exactly the top-level files, -j creates only <name>.<eid>.json, every other mode nothing.",
             "audit hook sees Python-level events only; no symlinks",
             "snapshot differ + audit-hook event log checker"),
+    "C12": ("fault_enumeration", "4.C12",
+            "Each --clean scenario runs under strace; every syscall in the window from the output's first syscall to exit "
+            "gets an error injection fitting the call and a SIGKILL crash point (strace -e inject). An offline checker over "
+            "the recorded syscall log requires unlink(input) to be preceded by the successful open/complete writes/close of "
+            "that input's output; the post-state is checked too; an in-process twin (failing file proxy, failing stdout, "
+            "os.remove audit events) repeats it over many PELs x every operation index.",
+            "process-level only: no fsync/power-loss claim; trusts strace's injection and -y path decoration",
+            "syscall trace checker with fault and crash-point injection (strace)"),
+    "C13": ("exploration", "4.C13",
+            "A wrapper rebound over every alias of hexdump checks each call made by any code path (line count, equal "
+            "widths, offsets, digits, default-layout round trip through the repo's parse and an independent parser); "
+            "parse() is driven with independent renderings of both I/O-drawer formats incl. short last lines and comment "
+            "lines; peltool -x output is parsed back to the files' bytes.",
+            "trusts the independent renderers/parser in vf/iomodels.py and vf/pelmodel.py",
+            "runtime post-condition monitor with round-trip oracle"),
+    "C14": ("exploration", "4.C14",
+            "Wrappers over every alias of parse_ilog_data and over PTETable.get_entry compare each call with an "
+            "independent model on harness-written tables (so the oracle knows the table) and on both shipped tables "
+            "(independent scanner, size cross-checked with PTE_TABLE_SIZE).",
+            "trusts ilog_ref; Python's % operator is the formatting semantics",
+            "reference-model monitor on the real decoder"),
+    "C15": ("exploration", "4.C15",
+            "Wrappers over every alias of parse_trace_data and TraceStringFile.get_trace_string compare each call with "
+            "trace_ref / find_string on synthetic and shipped string files; buffers carry oversized/mis-trailed/truncated "
+            "entries and are additionally truncated at every k-th offset.",
+            "trusts trace_ref; both readings accepted when the declared size falls inside an entry",
+            "reference-model monitor on the real decoder"),
+    "C16": ("exploration", "4.C16",
+            "Wrappers over parse_hlog_data / get_hlog_fields compare each call with hlog_ref on synthetic and shipped "
+            "field tables, every data length 0..record+8 and a single non-zero byte at every offset.",
+            "trusts hlog_ref and the default dump layout", "reference-model monitor on the real decoder"),
+    "C17": ("exploration", "4.C17",
+            "A wrapper over parse_dump_data compares the output with the model composed from the C14/C15 models; wrappers "
+            "over dump.parse_ilog_data/parse_trace_data log the slices actually handed down and assert they partition the "
+            "input in address order; parse_dump_file on both text formats and the stand-alone script must agree with the "
+            "raw-bytes decode.",
+            "trusts the region model; each buffer name recognised at most once",
+            "reference-model + partition monitor on recorded slices"),
 }
 
 TECH_DEFAULT = "runtime monitoring"
